@@ -30,6 +30,9 @@ def main(a):
                 import subprocess
                 diff = subprocess.check_output(["git", "-C", "/repo", "show", v["revert"]])
                 subprocess.run(["patch", "-R", "-p1", "-s"], input=diff, cwd=d, check=True)
+            elif "patch" in v:
+                import subprocess
+                subprocess.run(["patch", "-p1", "-s", "-i", os.path.join(mutate.VERIF, v["patch"])], cwd=d, check=True)
             else:
                 apply(d, v["file"], v["old"], v["new"], v.get("nth"))
             for (f, o, n) in v.get("extra", []):
